@@ -1,4 +1,9 @@
 import Pycoin.Proofs.Group
+import Pycoin.Proofs.GenMul
+import Pycoin.Proofs.Sqrt
+import Pycoin.Proofs.CurveFacts.secp256k1
+import Pycoin.Proofs.CurveFacts.secp256r1
+import Pycoin.Proofs.CurveFacts.bls12_381
 /-!
 C02 — elliptic-curve arithmetic is the group law.  Property theorems (helper lemmas: `Proofs/Field.lean`,
 `Proofs/Group.lean`).
@@ -113,4 +118,85 @@ theorem C02_order_mul_partial (P : Pt) (hP : OnCurve c P) (hn0 : c.n ≠ 0) (hn 
   obtain ⟨R, h1, h2, h3⟩ := C02_multiply_correct c P hP (k * c.n) hn0 hn
   rw [h1, toPoint_eq_zero c h2 (by rw [h3, mul_zsmul, hn, zsmul_zero])]
 
+
+/-! ## (d) fixed-base table and blinding -/
+
+/-- `Generator.raw_mul(e) = e • G` for every integer `e`, on a generator with `0 < n ≤ 2²⁵⁶` and `n • G = ∞`
+(the 256-entry table loses higher bits of `e mod n`; `n ≤ 2²⁵⁶` is the explicit hypothesis, true of every shipped
+curve and of every toy curve) -/
+theorem C02_rawMul_correct (hG : containsXY c c.gx c.gy = true) (hn0 : c.n ≠ 0) (hn256 : c.n ≤ 2 ^ 256)
+    (hn : (c.n : Int) • toPoint c (basis c) = 0) (e : Int) :
+    ∃ R, rawMul c e = .ok R ∧ OnCurve c R ∧ toPoint c R = e • toPoint c (basis c) :=
+  rawMul_refines c hG hn0 hn256 hn e
+
+/-- the blinded `Generator.__mul__` denotes `e • G` whatever the blinding factor -/
+theorem C02_blindedMul_eq (hG : containsXY c c.gx c.gy = true) (hn0 : c.n ≠ 0) (hn256 : c.n ≤ 2 ^ 256)
+    (hn : (c.n : Int) • toPoint c (basis c) = 0) (bf e : Int) :
+    ∃ R, mulG c bf e = .ok R ∧ OnCurve c R ∧ toPoint c R = e • toPoint c (basis c) :=
+  mulG_refines c hG hn0 hn256 hn bf e
+
+/-- … hence blinded and plain agree as coordinate pairs (both are reduced or infinity) -/
+theorem C02_blindedMul_eq_rawMul (hG : containsXY c c.gx c.gy = true) (hn0 : c.n ≠ 0) (hn256 : c.n ≤ 2 ^ 256)
+    (hn : (c.n : Int) • toPoint c (basis c) = 0) (bf bf' e : Int) :
+    ∃ R R', mulG c bf e = .ok R ∧ mulG c bf' e = .ok R' ∧ toPoint c R = toPoint c R' := by
+  obtain ⟨R, h1, -, h3⟩ := mulG_refines c hG hn0 hn256 hn bf e
+  obtain ⟨R', h1', -, h3'⟩ := mulG_refines c hG hn0 hn256 hn bf' e
+  exact ⟨R, R', h1, h1', by rw [h3, h3']⟩
+
+/-! ## (f) points_for_x -/
+
+/-- `Generator.points_for_x(x)` for `p ≡ 3 (mod 4)` and `α = x³ + ax + b ≠ 0` (true on every curve of odd order):
+exactly the two curve points with abscissa `x`, even `y` first, when `α` is a square; `NoSuchPointError`
+(a `ValueError`) when it is not, and then the curve has no point with this abscissa. -/
+theorem C02_pointsForX_spec (h4 : c.p % 4 = 3) (x : Int) (hα : alphaOf c x ≠ 0) :
+    (IsSquare (alphaOf c x) →
+      ∃ y0 y1 : Int, pointsForX c x = .ok (some (x, y0), some (x, y1)) ∧
+        containsXY c x y0 = true ∧ containsXY c x y1 = true ∧ 0 < y0 ∧ y0 < c.p ∧ 0 < y1 ∧ y1 < c.p ∧
+        y0 % 2 = 0 ∧ y0 + y1 = c.p ∧
+        ∀ y : Int, 0 ≤ y → y < c.p → containsXY c x y = true → y = y0 ∨ y = y1) ∧
+    (¬ IsSquare (alphaOf c x) →
+      pointsForX c x = .error .noSuchPoint ∧ ∀ y : Int, containsXY c x y = false) :=
+  pointsForX_spec c h4 x hα
+
 end Pycoin.Curve
+
+/-! ## (e) the shipped curves: primality by Pratt certificates, order of the generator by evaluation -/
+namespace Pycoin.Gen.Curves
+open Pycoin.Curve
+
+theorem C02_prime_p_secp256k1 : Nat.Prime secp256k1.p := prime_p_secp256k1
+theorem C02_prime_n_secp256k1 : Nat.Prime secp256k1.n := prime_n_secp256k1
+theorem C02_prime_p_secp256r1 : Nat.Prime secp256r1.p := prime_p_secp256r1
+theorem C02_prime_n_secp256r1 : Nat.Prime secp256r1.n := prime_n_secp256r1
+theorem C02_prime_p_bls12_381 : Nat.Prime bls12_381.p := prime_p_bls12_381
+theorem C02_prime_n_bls12_381 : Nat.Prime bls12_381.n := prime_n_bls12_381
+
+/-- `n • G = ∞` in Mathlib's group, for the constants the code ships *now* (kernel evaluation of the model ladder) -/
+theorem C02_order_G_secp256k1 : (secp256k1.n : Int) • toPoint secp256k1 (basis secp256k1) = 0 := order_G_secp256k1
+theorem C02_order_G_secp256r1 : (secp256r1.n : Int) • toPoint secp256r1 (basis secp256r1) = 0 := order_G_secp256r1
+theorem C02_order_G_bls12_381 : (bls12_381.n : Int) • toPoint bls12_381 (basis bls12_381) = 0 := order_G_bls12_381
+
+/-- every shipped curve meets the side conditions of the generic theorems: `p ≡ 3 (mod 4)`, `0 < n ≤ 2²⁵⁶`,
+`G` on the curve (and `Good`: instances `good_*`) -/
+theorem C02_side_conditions :
+    (secp256k1.p % 4 = 3 ∧ secp256k1.n ≠ 0 ∧ secp256k1.n ≤ 2 ^ 256 ∧ containsXY secp256k1 secp256k1.gx secp256k1.gy = true) ∧
+    (secp256r1.p % 4 = 3 ∧ secp256r1.n ≠ 0 ∧ secp256r1.n ≤ 2 ^ 256 ∧ containsXY secp256r1 secp256r1.gx secp256r1.gy = true) ∧
+    (bls12_381.p % 4 = 3 ∧ bls12_381.n ≠ 0 ∧ bls12_381.n ≤ 2 ^ 256 ∧ containsXY bls12_381 bls12_381.gx bls12_381.gy = true) := by
+  refine ⟨⟨?_, ?_, ?_, G_on_curve_secp256k1⟩, ⟨?_, ?_, ?_, G_on_curve_secp256r1⟩, ⟨?_, ?_, ?_, G_on_curve_bls12_381⟩⟩ <;>
+    decide +kernel
+
+/-- scalar multiples of the generator are annihilated by the order: the hypothesis `n • P = ∞` of
+`C02_multiply_correct` / `C02_order_mul_partial` holds on the whole subgroup `⟨G⟩` -/
+theorem C02_order_subgroup_secp256k1 (k : Int) :
+    (secp256k1.n : Int) • (k • toPoint secp256k1 (basis secp256k1)) = 0 := by
+  rw [smul_comm, order_G_secp256k1, zsmul_zero]
+
+theorem C02_order_subgroup_secp256r1 (k : Int) :
+    (secp256r1.n : Int) • (k • toPoint secp256r1 (basis secp256r1)) = 0 := by
+  rw [smul_comm, order_G_secp256r1, zsmul_zero]
+
+theorem C02_order_subgroup_bls12_381 (k : Int) :
+    (bls12_381.n : Int) • (k • toPoint bls12_381 (basis bls12_381)) = 0 := by
+  rw [smul_comm, order_G_bls12_381, zsmul_zero]
+
+end Pycoin.Gen.Curves
